@@ -600,3 +600,99 @@ def s_lift_initializers(ctx):
 SCENARIOS.append(Scenario("C18.builder.lift_initializers", s_lift_initializers, F("lift_initializers_to_constants"), kind="bounded",
                           bound="<= 3 initializers (each with/without data, input or not), <= 2 existing nodes; opset version symbolic",
                           trusted=["ir.Graph.node / num_nodes / insert_before / append (onnx_ir)"]))
+
+
+def s_call_op(ctx):
+    """BuilderBase.call_op — the node-creation pipeline.  For every combination of feature flags: exactly ONE node is
+    created from (domain, op_type, version), its inputs are the arguments after schema partition and then casting, its
+    attributes the keyword arguments after partition and attribute casting, its outputs the adapted outputs (or the
+    requested count), its name the given one else the generated one; it is annotated, stored once, its opset recorded;
+    constant propagation and shape inference run iff enabled, after the node is stored; one output is returned bare."""
+    import onnx_ir as ir
+    from onnxscript._internal import tape_builder as tb
+    from onnx_ir import _convenience
+    I = Interp(ctx)
+    F_ = tb.BuilderFeature
+    feats = F_(0)
+    chosen = {}
+    for nm in ("SCHEMA_PARTITION", "CAST_INPUTS", "CAST_ATTRIBUTES", "CONSTANT_PROPAGATION", "INFER_SHAPES"):
+        chosen[nm] = ctx.choose(2, f"feature {nm}") == 1
+        if chosen[nm]:
+            feats |= getattr(F_, nm)
+    schema_aware = bool(feats & F_.SCHEMA_AWARE)
+    self = SObj(tb.BuilderBase, "builder")
+    self.fields["_features"] = feats
+    log = []
+    B = tb.BuilderBase
+    I.models[B._get_schema] = lambda interp, slf, op, dom, ver: (log.append(("schema", op, dom, ver)) or "SCHEMA")
+    I.models[B._partition_inputs_attributes] = lambda interp, slf, sch, a, k: (log.append(("partition", sch, a, k)) or (("P", a), {"part": k}))
+    I.models[B._cast_inputs] = lambda interp, slf, sch, a: (log.append(("cast_inputs", sch, a)) or ("C", a))
+    I.models[B._cast_attributes] = lambda interp, slf, sch, k: (log.append(("cast_attrs", sch, k)) or {"cast": k})
+    I.models[_convenience.convert_attributes] = lambda interp, k: ("ATTRS", k)
+    out_kind = ["int 1", "int 2", "names"][ctx.choose(3, "outputs argument")]
+    outputs_arg = {"int 1": 1, "int 2": 2, "names": ["a", "b"]}[out_kind]
+    adapted = None if out_kind != "names" else [Opaque("va"), Opaque("vb")]
+    I.models[B._adapt_outputs] = lambda interp, slf, outs, op: (log.append(("adapt", outs, op)) or adapted)
+    I.models[B._generate_node_name] = lambda interp, slf, op: (log.append(("genname", op)) or "generated_name")
+    nodes = []
+
+    def m_node(interp, domain, op_type, inputs=(), attributes=(), outputs=None, num_outputs=None, version=None, name=None, **k):
+        n = SObj(ir.Node, "node")
+        outs = list(outputs) if outputs is not None else [Opaque(f"out{i}") for i in range(num_outputs)]
+        n.fields.update(domain=domain, op_type=op_type, inputs=inputs, attributes=attributes, outputs=outs, version=version, name=name,
+                        given_outputs=outputs, num_outputs=num_outputs)
+        nodes.append(n)
+        log.append(("node", n))
+        return n
+    I.models[ir.Node] = m_node
+    I.models[B._annotate_node] = lambda interp, slf, n: log.append(("annotate", n))
+    I.models[B._add_node] = lambda interp, slf, n: log.append(("add", n))
+    I.models[B._record_opset] = lambda interp, slf, d, v: log.append(("opset", d, v))
+    I.models[B._constant_propagation] = lambda interp, slf, n: log.append(("constprop", n))
+    I.models[B._infer_shapes] = lambda interp, slf, n: log.append(("infer", n))
+    given_name = ctx.choose(2, "a node name is given") == 1
+    has_kwargs = ctx.choose(2, "keyword arguments given") == 1
+    args0, kwargs0 = ["x", 1], ({"axis": 0} if has_kwargs else {})
+    ver = ctx.int("version")
+    from pyvc.values import SInt
+    r = I.run_closure(I.closure_of(B.call_op), [self, "MyOp", args0, kwargs0],
+                      {"domain": "my.domain", "version": SInt(ver), "outputs": outputs_arg, "name": ("given_name" if given_name else None)})
+    CLS = "C18: 'computes exactly the sequence of operator calls that was traced'"
+    ctx.check("C18.builder.call_op.exactly_one_node_is_created_and_stored_once", len(nodes) == 1 and [e for e in log if e[0] == "add"] == [("add", nodes[0])], CLS)
+    if len(nodes) != 1:
+        return
+    n = nodes[0]
+    f = n.fields
+    ctx.check("C18.builder.call_op.node_has_the_requested_operator_domain_and_version", f["op_type"] == "MyOp" and f["domain"] == "my.domain" and
+              z3.is_true(z3.simplify(term(f["version"]) == ver)), CLS)
+    if schema_aware:
+        ctx.check("C18.builder.call_op.schema_looked_up_for_this_operator_domain_and_version",
+                  [e for e in log if e[0] == "schema"] == [("schema", "MyOp", "my.domain", f["version"])], "C12/C18: promotion uses the schema of the opset version in use")
+    sch = "SCHEMA" if schema_aware else None
+    a, k = args0, kwargs0
+    if chosen["SCHEMA_PARTITION"]:
+        a, k = ("P", a), {"part": k}
+    if chosen["CAST_INPUTS"]:
+        a = ("C", a)
+    if chosen["CAST_ATTRIBUTES"]:
+        k = {"cast": k}
+    ctx.check("C18.builder.call_op.inputs_are_the_arguments_after_partition_then_casting", f["inputs"] == a, CLS + " — each stage works on the result of the previous one")
+    ctx.check("C18.builder.call_op.attributes_are_the_keywords_after_partition_then_casting", f["attributes"] == (("ATTRS", k) if k else ()), CLS)
+    stages = [e[0] for e in log if e[0] in ("partition", "cast_inputs", "cast_attrs")]
+    ctx.check("C18.builder.call_op.stages_run_iff_enabled_with_the_schema", stages == [s_ for s_, on in (("partition", chosen["SCHEMA_PARTITION"]), ("cast_inputs", chosen["CAST_INPUTS"]),
+              ("cast_attrs", chosen["CAST_ATTRIBUTES"])) if on] and all(e[1] == sch for e in log if e[0] in ("partition", "cast_inputs", "cast_attrs")), CLS)
+    if out_kind == "names":
+        ctx.check("C18.builder.call_op.outputs_are_the_adapted_outputs", f["given_outputs"] == adapted and f["num_outputs"] is None, CLS)
+    else:
+        ctx.check("C18.builder.call_op.outputs_count_is_the_requested_count", f["given_outputs"] is None and f["num_outputs"] == outputs_arg, CLS)
+    ctx.check("C18.builder.call_op.name_is_the_given_one_else_generated", f["name"] == ("given_name" if given_name else "generated_name") and
+              (("genname", "MyOp") in log) == (not given_name), CL_UNIQ)
+    order = [e[0] for e in log if e[0] in ("node", "annotate", "add", "opset", "constprop", "infer")]
+    want = ["node", "annotate", "add", "opset"] + (["constprop"] if chosen["CONSTANT_PROPAGATION"] else []) + (["infer"] if chosen["INFER_SHAPES"] else [])
+    ctx.check("C18.builder.call_op.annotated_stored_recorded_then_hooks_iff_enabled", order == want and ("opset", "my.domain", f["version"]) in log, CLS)
+    outs = f["outputs"]
+    ctx.check("C18.builder.call_op.returns_the_single_output_bare_else_all", (r is outs[0]) if len(outs) == 1 else (r is outs or list(r) == outs), CLS)
+
+
+SCENARIOS.append(Scenario("C18.builder.call_op", s_call_op, [("onnxscript/_internal/tape_builder.py", "BuilderBase.call_op")],
+                          trusted=["ir.Node(domain, op_type, inputs, attributes=, outputs= | num_outputs=, version=, name=) (onnx_ir)"]))
